@@ -63,6 +63,56 @@ theorem deadline_model_is_translated_code (now ms : Nat) :
   exact ⟨deadline_exact_signal.agrees_with_model _ ms hv, deadline_exact_monitor.agrees_with_model _ ms hv,
     deadline_exact_semaphore.agrees_with_model _ ms hv⟩
 
+/-! ### the same statements with C's semantics, for all 64-bit inputs
+
+  `SyncDeadline.<x>C` / `<x>Safe` are generated from the same source statements with C's LP64 semantics (CArith.lean: `/`, `%`
+  truncate towards zero; `<x>Safe` = every arithmetic result fits its C type — `int` 32 bits where all operands are `int`,
+  otherwise the 64 bits of `long` / `int64` / `time_t` — and no divisor is zero). -/
+
+open Nstd.Sync.CArith in
+/-- For EVERY 64-bit time-out (negative ones included) and every normalised clock value below 9·10¹⁸ s: the statements have
+    no undefined behaviour (no signed overflow — in particular not in `(timeout % 1000) * 1000000` nor in the additions to
+    `tv_sec` / `tv_nsec` —, no division by zero); the result is exactly `clock + timeout·10⁶ ns` with `|tv_nsec| < 10⁹`; and for
+    time-outs ≥ 0 it is normalised (`0 ≤ tv_nsec`) and equal to the unbounded computation the `deadline_exact_*` theorems and
+    the model use (so C's truncating `/` `%` and Lean's agree where it matters: time-out 0, carries, very long time-outs).
+    For a negative time-out `tv_nsec` may come out negative (EINVAL from the timed POSIX wait) or the deadline lies in the
+    past (immediate ETIMEDOUT): a false return either way; negative time-outs are outside the model. -/
+def Deadline64 (fC : Int → Int → Int → Int × Int) (safe : Int → Int → Int → Prop) (fU : Int → Int → Int → Int × Int) : Prop :=
+  ∀ sec nsec ms : Int, 0 ≤ sec → sec ≤ 9000000000000000000 → 0 ≤ nsec → nsec < 1000000000 → in64 ms →
+    safe sec nsec ms ∧
+    (fC sec nsec ms).1 * 1000000000 + (fC sec nsec ms).2 = sec * 1000000000 + nsec + ms * 1000000 ∧
+    -1000000000 < (fC sec nsec ms).2 ∧ (fC sec nsec ms).2 < 1000000000 ∧ in64 (fC sec nsec ms).1 ∧
+    (0 ≤ ms → 0 ≤ (fC sec nsec ms).2 ∧ fC sec nsec ms = fU sec nsec ms)
+
+open Nstd.Sync.CArith in
+theorem deadline_64bit_no_overflow_exact_signal :
+    Deadline64 SyncDeadline.signalC SyncDeadline.signalSafe SyncDeadline.signal := by
+  intro sec nsec ms h0 h1 h2 h3 h4
+  simp only [in64] at h4
+  simp only [SyncDeadline.signalSafe, SyncDeadline.signalC, SyncDeadline.signal, in64, in32, cdiv_eq, cmod_eq, Prod.mk.injEq]
+  omega
+
+open Nstd.Sync.CArith in
+theorem deadline_64bit_no_overflow_exact_monitor :
+    Deadline64 SyncDeadline.monitorC SyncDeadline.monitorSafe SyncDeadline.monitor := by
+  intro sec nsec ms h0 h1 h2 h3 h4
+  simp only [in64] at h4
+  simp only [SyncDeadline.monitorSafe, SyncDeadline.monitorC, SyncDeadline.monitor, in64, in32, cdiv_eq, cmod_eq, Prod.mk.injEq]
+  omega
+
+open Nstd.Sync.CArith in
+theorem deadline_64bit_no_overflow_exact_semaphore :
+    Deadline64 SyncDeadline.semaphoreC SyncDeadline.semaphoreSafe SyncDeadline.semaphore := by
+  intro sec nsec ms h0 h1 h2 h3 h4
+  simp only [in64] at h4
+  simp only [SyncDeadline.semaphoreSafe, SyncDeadline.semaphoreC, SyncDeadline.semaphore, in64, in32, cdiv_eq, cmod_eq, Prod.mk.injEq]
+  omega
+
+/-- non-vacuity / corner cases of the C version: time-out 0, carry, the longest time-out, a negative one (tv_nsec < 0) -/
+example : SyncDeadline.signalC 5 999000000 0 = (5, 999000000) ∧ SyncDeadline.signalC 5 999000000 1500 = (7, 499000000) ∧
+    SyncDeadline.signalC 1700000000 999999999 9223372036854775807 = (9223373736854776, 806999999) ∧
+    SyncDeadline.signalC 5 1000000 (-2) = (5, -1000000) := by decide
+
 /-- non-vacuity: a clock phase with nanosecond carry and a time-out above one second -/
 example : SyncDeadline.signal 5 999000000 1500 = (7, 499000000) := by decide
 
